@@ -182,6 +182,16 @@ def run(item):
         mat = dict(exprs)[name]
         r_, c_ = shape
         npts = len(ex['z'][e_idx]) // (r_ * c_)
+        # the returned time vector has one entry per returned value, and is what sampling ocp.t on that grid gives
+        if len(ex['z'][t_idx]) != npts:
+            V('time-length:%s' % g, 'sample(%s,%s)' % (name, glab), 'the time vector has %d entries for %d sampled values' % (len(ex['z'][t_idx]), npts))
+        else:
+            tl = [i for k, w, i in ents if k == 'leaf' and w == ('t',)]
+            if tl:
+                for i in range(npts):
+                    if not ch.prove('time[%d] of sample(.,%s) == sample(t)' % (i, glab), {d: ex[d][t_idx][i] for d in doms}, {d: ex[d][tl[0]][i] for d in doms}) and ch.violations:
+                        v = ch.violations.pop()
+                        V('time-vector:%s' % g, 'time[%d]@%s' % (i, glab), 'returned time differs from ocp.t sampled on the same grid: %s' % {k: v.get(k) for k in ('how', 'impl', 'ref')})
         leafvals = {d: {} for d in doms}
         for k, w, i in ents:
             if k in ('leaf', 'valueleaf'):
